@@ -112,7 +112,7 @@ def awkward(rng):
 
 
 def draw_fcs(rng):
-    n = rng.randint(3, 8)
+    n = rng.randint(3, 8) if rng.random() < 0.85 else rng.randint(1, 2)
     vals = [float(x) for x in np.geomspace(rng.choice([0.5, 1.0, 2.0]), rng.choice([8.0, 15.0, 20.0]), n)]
     return seq(rng, vals)
 
@@ -173,7 +173,7 @@ def draw_args(rng, cls):
         if maybe():
             a["azimuth_in_degrees"] = rng.choice([0.0, 33.3, 90.0, awkward(rng)])
     if cls in ("HvsrTraditionalRotDppProcessingSettings", "HvsrAzimuthalProcessingSettings") and maybe(0.8):
-        k = rng.randint(2, 4)
+        k = rng.randint(2, 4) if rng.random() < 0.8 else 1
         a["azimuths_in_degrees"] = seq(rng, [float(x) for x in sorted(rng.sample(range(0, 180, 5), k))])
     if cls == "HvsrTraditionalRotDppProcessingSettings" and maybe():
         a["ppth_percentile_for_rotdpp_computation"] = rng.choice([0.0, 50.0, 84.0])
